@@ -92,6 +92,10 @@ def run(rep, drv):
 					 py=py, model=mo, oracle=bad, theorem=THEOREM if same else None)
 	rep.extra['certificates_verified_exactly'] = certs
 	# exact algorithm
+	# corpus first: instances on which an improving step of the algorithm raises the reorder point (dyadic pmfs)
+	CORPUS = [([F(1, 2), F(0), F(3, 8), F(1, 8)], F(2), F(19), F(20)), ([F(1, 4), F(0), F(3, 8), F(0), F(3, 8)], F(1), F(9), F(10)),
+			  ([F(9, 16), F(0), F(5, 16), F(1, 8)], F(2), F(19), F(20)), ([F(1, 8), F(1, 4), F(1, 4), F(1, 4), F(1, 8)], F(1), F(9), F(20)),
+			  ([F(3, 8), F(3, 8), F(1, 8), F(1, 8)], F(2), F(5), F(5))]
 	for k in range(250 if th else 40):
 		pmf = gen_pmf(rng)
 		D = len(pmf) - 1
@@ -99,6 +103,8 @@ def run(rep, drv):
 		if rng.random() < .3:
 			K = F(rng.choice([1, 2, 4, 8]), 16)          # tiny fixed cost: the near base-stock regime (s = S - 1)
 			rep.count('zf:small-K')
+		if k < len(CORPUS):
+			pmf, h, b, K = CORPUS[k]; D = len(pmf) - 1; rep.count('zf:corpus-case')
 		case = {'pmf': frs(pmf), 'h': fr(h), 'b': fr(b), 'K': fr(K)}
 		rep.case('s_s_discrete_exact', case, nontrivial=True)
 		try:
